@@ -98,7 +98,7 @@ class Check(BaseCheck):
         n, size = (45, "small") if self.quick else (900, "large")
         for c in tri_cases(self.seed + 11, n, size):
             yield c["v"], c["t"], c["name"], c["tags"]
-        for c in gen.narrow_cases():
+        for c in gen.narrow_cases() + gen.big_cases(self.seed, not self.quick)[:4]:
             yield c["v"], c["t"], c["name"], c["tags"]
         # exhaustive small complexes
         v4, t4 = gen.tetra_surface()
